@@ -164,6 +164,22 @@ def run(prop, tier):
                 probes = sum(1 for tr in utraces for ln in tr if ln.startswith("pw "))
                 stats_lines.append("unbounded seed=%d: %d traces, %d reservations probed" % (sd, len(utraces), probes))
 
+    # C09 end to end: a blocked log call of the real frontend must have resumed once the backend drained (H2 scripts)
+    if prop == "C09":
+        try:
+            import props.backend as be
+            bres = be.collect(ck, tier, ex)
+            if "build_error" not in bres:
+                for o in bres["oracle"]:
+                    if o["prop"] == "C09":
+                        sc = bres.get("scripts", {}).get(o["case"]) or []
+                        oracle_hits.append(("H2 end-to-end case %s (replay with: python3 tools/check.py C03 --replay <file>)" % o["case"],
+                                            "ORACLE " + o["msg"], [""] + sc, len(sc) + 1))
+                stats_lines.append("H2 end-to-end: %d scripted lives, %d parked calls observed, %d refused after the backend found every queue empty" % (
+                    bres["cases"], bres["stats"].get("parks", 0), sum(1 for o in bres["oracle"] if o["prop"] == "C09")))
+        except Exception as exn:  # the backend bundle is optional for this check
+            stats_lines.append("H2 end-to-end stream not available: %r" % (exn,))
+
     # memory orders observed at run time vs the regex extraction
     if orders_seen:
         b = ex["bounded"]
@@ -234,6 +250,9 @@ def run(prop, tier):
 
 
 def replay(prop, path):
+    if open(path).readline().startswith("# H2 "):
+        import props.backend as be
+        return be.replay(prop, path)
     ok, hbin, log = vlib.build_harness("h1_spsc", ["h1_spsc.cpp"], extra_flags=["-fno-access-control"])
     if not ok:
         print(log)
